@@ -377,7 +377,7 @@ def h_melody_notes(c):
     c.assume(c.And(sk < ek, ek <= tk))
     n.start_time = sk * 0.25
     n.end_time = ek * 0.25
-    n.pitch = c.choice('n%d_p' % i, [60, 64])
+    n.pitch = c.choice('n%d_p' % i, c.params.get('pitches') or [60, 64])
     n.velocity = 80
     n.instrument = c.choice('n%d_i' % i, [0, 8])
     orig.append((n.pitch, sk, ek, n.instrument))
@@ -487,6 +487,7 @@ def jobs(tier):
   add('h_chord_annotations', mode='beats', K=3, B=3, sps=4, add_keys=False,
       keys=[0], chords=['N.C.', [0, '']], budget=900)
   add('h_melody_notes', N=1, K=3)
+  add('h_melody_notes', N=1, K=3, pitches=[0, 127])  # the ends of the range
   add('h_melody_notes', N=2, K=3, budget=900)
   if tier == 'thorough':
     for add_keys in (False, True):
